@@ -103,26 +103,33 @@ func (c ConditionFunction) Evaluate(a interface{}, b interface{}) (bool, error) 
 	}
 	switch c {
 	case ConditionEqual:
-		return reflect.DeepEqual(a, b), nil
+		return valuesEqual(x, y), nil
 	case ConditionNotEqual:
-		return !reflect.DeepEqual(a, b), nil
+		return !valuesEqual(x, y), nil
 	case ConditionIncludes:
 		switch x.Kind() {
 		case reflect.Slice:
 			return sliceContains(x, y), nil
 		case reflect.Map:
 			return mapContains(x, y), nil
+		case reflect.Ptr:
+			// an optional value is a set of at most one element
+			return y.IsNil() || (!x.IsNil() && reflect.DeepEqual(a, b)), nil
 		case reflect.Int, reflect.Float64, reflect.Bool, reflect.String:
 			return reflect.DeepEqual(a, b), nil
 		default:
 			return false, fmt.Errorf("condition not supported on %s", x.Kind())
 		}
 	case ConditionExcludes:
+		// RFC7047: the column must not contain any of the values (or pairs)
+		// of the argument
 		switch x.Kind() {
 		case reflect.Slice:
-			return !sliceContains(x, y), nil
+			return sliceExcludes(x, y), nil
 		case reflect.Map:
-			return !mapContains(x, y), nil
+			return mapExcludes(x, y), nil
+		case reflect.Ptr:
+			return x.IsNil() || y.IsNil() || !reflect.DeepEqual(a, b), nil
 		case reflect.Int, reflect.Float64, reflect.Bool, reflect.String:
 			return !reflect.DeepEqual(a, b), nil
 		default:
@@ -173,6 +180,51 @@ func (c ConditionFunction) Evaluate(a interface{}, b interface{}) (bool, error) 
 	}
 	// we should never get here
 	return false, fmt.Errorf("unreachable condition")
+}
+
+// valuesEqual compares two native column values. Sets (slices) and maps are
+// compared as such: element order and nil versus empty do not matter.
+func valuesEqual(x, y reflect.Value) bool {
+	switch x.Kind() {
+	case reflect.Slice:
+		return x.Len() == y.Len() && sliceContains(x, y) && sliceContains(y, x)
+	case reflect.Map:
+		return x.Len() == y.Len() && mapContains(x, y)
+	case reflect.Invalid:
+		return !y.IsValid()
+	default:
+		return reflect.DeepEqual(x.Interface(), y.Interface())
+	}
+}
+
+// sliceExcludes returns true if no element of y is in x
+func sliceExcludes(x, y reflect.Value) bool {
+	for i := 0; i < y.Len(); i++ {
+		if sliceContains(x, y.Slice(i, i+1)) {
+			return false
+		}
+	}
+	return true
+}
+
+// mapExcludes returns true if no key-value pair of y is in x
+func mapExcludes(x, y reflect.Value) bool {
+	iter := y.MapRange()
+	for iter.Next() {
+		vx := x.MapIndex(iter.Key())
+		if !vx.IsValid() {
+			continue
+		}
+		v := iter.Value()
+		if v.Kind() == reflect.Interface {
+			if v.Elem() == vx.Elem() {
+				return false
+			}
+		} else if v.Interface() == vx.Interface() {
+			return false
+		}
+	}
+	return true
 }
 
 func sliceContains(x, y reflect.Value) bool {
